@@ -335,6 +335,16 @@ func (s *sys) Ops() []string {
 				fmt.Sprintf("mk %d F fvir a ow", g), fmt.Sprintf("mk %d F fvir b rin", g),
 				fmt.Sprintf("mkb %d rin-leased", g), fmt.Sprintf("mkb %d rin-free", g), fmt.Sprintf("mk %d F fvir c -", g))
 		}
+	case "pairs":
+		// two writer calls staged in one caller-owned transaction, committed together
+		for _, g := range gws {
+			l := leases[len(leases)-1]
+			ops = append(ops, fmt.Sprintf("mk %d %s vir a -", g, l), fmt.Sprintf("mk %d %s vir b -", g, l),
+				fmt.Sprintf("txp %d %s create-create", g, l), fmt.Sprintf("txp %d %s delete-create", g, l))
+			if len(s.refs) > 0 {
+				ops = append(ops, fmt.Sprintf("txp %d %s rename-create", g, l), fmt.Sprintf("txp %d %s create-rename", g, l))
+			}
+		}
 	case "limit":
 		ops = append(ops, "mk 1 1 idx a -", "mk 1 1 dat b -", "mk 1 1 idx c -", "mk 1 1 dat d -", "mk 1 1 vir e -", "mkb 1 mixed")
 	case "batches":
@@ -462,6 +472,8 @@ func (s *sys) Apply(op string) (obs string, err error) {
 		}
 	case "rn", "rnm":
 		s.lastOp = "rename"
+	case "txp":
+		s.lastOp = "pair"
 	default:
 		s.lastOp = "delete"
 	}
@@ -614,6 +626,84 @@ func (s *sys) Apply(op string) (obs string, err error) {
 				obs += ":renamed-deleted-channel"
 			}
 		}
+	case "txp":
+		// Both calls see what the other staged: a name taken earlier in the transaction is
+		// taken, a name freed earlier in it is free. A refused second call stages nothing; the
+		// caller commits what the first call staged.
+		nd := s.nd(g)
+		tx := nd.DB.OpenTx()
+		w := nd.Channel.NewWriter(tx)
+		first, _ := s.mkChannel(f[2], "vir", "p")
+		second, _ := s.mkChannel(f[2], "vir", "p")
+		var target channel.Key // live channel the pair renames or deletes: the most recent one
+		for i := len(s.refs) - 1; i >= 0; i-- {
+			if _, live := liveBefore[s.refs[i]]; live {
+				target = s.refs[i]
+				break
+			}
+		}
+		var e1, e2 error
+		wantSecond := "refused"
+		var created []channel.Channel
+		switch f[3] {
+		case "create-create":
+			if e1 = w.Create(ctx, &first); e1 == nil {
+				created = append(created, first)
+				if e2 = w.Create(ctx, &second); e2 == nil {
+					created = append(created, second)
+				}
+			}
+		case "rename-create":
+			if e1 = w.Rename(ctx, target, "p", false); e1 == nil {
+				if e2 = w.Create(ctx, &second); e2 == nil {
+					created = append(created, second)
+				}
+			}
+		case "create-rename":
+			if e1 = w.Create(ctx, &first); e1 == nil {
+				created = append(created, first)
+				e2 = w.Rename(ctx, target, "p", false)
+			}
+		case "delete-create":
+			// the name freed by the delete is free for the create in the same transaction
+			wantSecond = "accepted"
+			if target == 0 {
+				_ = tx.Close()
+				return "no-target", nil
+			}
+			second.Name = liveBefore[target].Name
+			if e1 = w.Delete(ctx, target, false); e1 == nil {
+				if e2 = w.Create(ctx, &second); e2 == nil {
+					created = append(created, second)
+				}
+			}
+		}
+		if e1 != nil {
+			_ = tx.Close()
+			obs = "first:" + short(e1)
+			s.lastFail, s.lastErr = true, errClass(e1)
+			break
+		}
+		if wantSecond == "refused" && e2 == nil {
+			_ = tx.Close()
+			return "", vk.Violationf("name-taken-earlier-in-the-transaction-accepted", "%s: the second call of the transaction was accepted although the first one had given the name %q to another channel", op, "p")
+		}
+		if wantSecond == "accepted" && e2 != nil {
+			_ = tx.Close()
+			return "", vk.Violationf("name-freed-earlier-in-the-transaction-refused", "%s: the create was refused (%v) although the delete staged earlier in the same transaction had freed the name", op, e2)
+		}
+		if err := tx.Commit(ctx); err != nil {
+			_ = tx.Close()
+			obs = "commit:" + short(err)
+			s.lastFail, s.lastErr = true, errClass(err)
+			break
+		}
+		_ = tx.Close()
+		obs = "ok:" + short(e2)
+		if f[3] == "delete-create" {
+			s.deleted[target] = true
+		}
+		s.noteIssued(created, liveBefore)
 	case "rm", "rmm":
 		var keys []channel.Key
 		for _, a := range f[2:] {
@@ -864,6 +954,7 @@ func main() {
 			{name: "1 node, channel limit 2, tx", nodes: 1, tx: true, depth: 4, ops: "limit", limit: 2},
 			{name: "2 nodes, kinds from an index, tx", nodes: 2, tx: true, depth: 3, ops: "kinds", seed: seedIdx},
 			{name: "2 nodes, batches, direct", nodes: 2, depth: 2, ops: "batches"},
+			{name: "1 node, two calls in one transaction", nodes: 1, tx: true, depth: 3, ops: "pairs"},
 		}
 	} else {
 		scs = []scenario{
@@ -878,6 +969,8 @@ func main() {
 			{name: "2 nodes, options, direct", nodes: 2, depth: 3, ops: "options"},
 			{name: "2 nodes, batches, direct", nodes: 2, depth: 3, ops: "batches"},
 			{name: "3 nodes, kinds, tx", nodes: 3, tx: true, depth: 2, ops: "kinds", seed: seedIdx},
+			{name: "1 node, two calls in one transaction", nodes: 1, tx: true, depth: 4, ops: "pairs"},
+			{name: "2 nodes, two calls in one transaction", nodes: 2, tx: true, depth: 3, ops: "pairs"},
 		}
 	}
 	mk := func(sc scenario) seqx.Config {
